@@ -1,5 +1,7 @@
 import Mdsort.Proofs.FlagsTime
 import Mdsort.Proofs.DateFields
+import Mdsort.Proofs.AgeLiteral
+import Mdsort.Proofs.ConfErrors
 
 /-!
 # C15 - date conditions compare the true age of the message
@@ -56,6 +58,80 @@ theorem C15_units : Gen.scalars = Spec.units ∧
 theorem C15_overflow (n u : Nat) : dateAge n u = (if n * u < 2 ^ 32 then some (n * u) else none) :=
   Proofs.dateAge_spec n u
 
+/-- The age a configuration writes, through the lexer and the `date_age` rule of the parser model
+(`Model.parseDate` = `DATE date_field date_cmp INT scalar` with the overflow test): for EVERY non-empty
+string of digits `ds` (any length, leading zeros), every lexeme `w` that denotes a unit `u` (`Spec.unitOf`:
+the seven names and their unambiguous abbreviations), any white space between them, any comparison, and
+whatever follows the unit (anything that cannot continue a word) - from the state in which `date` has been
+read and the comparison is the lookahead token -
+* the condition is accepted IFF `N * u < 2^32` (`N = Spec.decimal ds`); the three outcomes below exclude each other;
+* the age in the tree is exactly `N * u`, with the comparison as written and the field `header`;
+* the parser stops exactly behind the unit (`s'.rest = rest`) and never runs out of budget.
+A literal of 2^32 or more is diagnosed by the lexer (`C14_int_literals`), a product of 2^32 or more by
+`date_age`: either way the configuration is rejected when it is parsed. -/
+theorem C15_age_literal_exact (cx : PCtx) (s : ParseSt) (cmp : DateCmp) (sp1 ds sp2 rest : Bytes) (w : String) (u : Nat)
+    (hla : s.la = some (Proofs.Conf.cmpTk cmp)) (ham : s.afterMacro = false)
+    (hrest : s.rest = sp1 ++ ds ++ (sp2 ++ w.toUTF8.toList ++ rest))
+    (hsp1 : ∀ x ∈ sp1, isspace x = true) (hne : ds ≠ []) (hd : ∀ d ∈ ds, isdigit d = true)
+    (hsp2 : ∀ x ∈ sp2, isspace x = true) (hw : Spec.unitOf w = some u)
+    (hr : ∀ c, rest.head? = some c → isKwChar c = false) :
+    match parseDate cx s with
+    | .ok t s' => Spec.decimal ds * u < 2 ^ 32 ∧
+        t = .leaf (.date (lineOf cx.nl rest) .header cmp (Spec.decimal ds * u)) ∧ s'.rest = rest ∧ s'.la = none
+    | .err _ _ => 2 ^ 32 ≤ Spec.decimal ds * u
+    | .fuel _ => False := by
+  have h := Proofs.Conf.parseDate_literal cx s cmp sp1 ds sp2 rest w u hla ham hrest hsp1 hne hd hsp2 hw hr
+  unfold Proofs.Conf.wp at h
+  cases hp : parseDate cx s <;> simp only [hp] at h ⊢ <;> exact h
+
+/-- The same with a field keyword (`header`, `access`, `modified`, `created`) as the lookahead and the
+comparison (`<` / `>`, after any white space) still to be read: every field, both comparisons. -/
+theorem C15_age_literal_exact_field (cx : PCtx) (s : ParseSt) (f : DateField) (cmp : DateCmp) (sp0 sp1 ds sp2 rest : Bytes)
+    (w : String) (u : Nat)
+    (hla : s.la = some (.kw (Proofs.Conf.fieldKw f))) (ham : s.afterMacro = false)
+    (hrest : s.rest = sp0 ++ Proofs.Conf.cmpChar cmp :: (sp1 ++ ds ++ (sp2 ++ w.toUTF8.toList ++ rest)))
+    (hsp0 : ∀ x ∈ sp0, isspace x = true)
+    (hsp1 : ∀ x ∈ sp1, isspace x = true) (hne : ds ≠ []) (hd : ∀ d ∈ ds, isdigit d = true)
+    (hsp2 : ∀ x ∈ sp2, isspace x = true) (hw : Spec.unitOf w = some u)
+    (hr : ∀ c, rest.head? = some c → isKwChar c = false) :
+    match parseDate cx s with
+    | .ok t s' => Spec.decimal ds * u < 2 ^ 32 ∧
+        t = .leaf (.date (lineOf cx.nl rest) f cmp (Spec.decimal ds * u)) ∧ s'.rest = rest ∧ s'.la = none
+    | .err _ _ => 2 ^ 32 ≤ Spec.decimal ds * u
+    | .fuel _ => False := by
+  have h := Proofs.Conf.parseDate_literal_field cx s f cmp sp0 sp1 ds sp2 rest w u hla ham hrest hsp0 hsp1 hne hd hsp2 hw hr
+  unfold Proofs.Conf.wp at h
+  cases hp : parseDate cx s <;> simp only [hp] at h ⊢ <;> exact h
+
+/-- The pieces at lexer level: every unit lexeme is lexed as its unit where a unit is expected, and
+`Spec.decimal` reads decimal notation (canonical form of `n` is `n`; leading zeros change nothing). -/
+theorem C15_age_literal_tokens :
+    (∀ (sp rest : Bytes) (w : String) (u : Nat), (∀ x ∈ sp, isspace x = true) → Spec.unitOf w = some u →
+      (∀ c, rest.head? = some c → isKwChar c = false) →
+      lex1 false true false (sp ++ w.toUTF8.toList ++ rest) = { tok := .scalar (some u), rest := rest, errors := 0 }) ∧
+    (∀ n, Spec.decimal (toString n).toUTF8.toList = n) ∧
+    (∀ k ds, Spec.decimal (List.replicate k 48 ++ ds) = Spec.decimal ds) :=
+  ⟨fun sp rest w u h1 h2 h3 => Proofs.lex_unit sp rest w u h1 h2 h3, Proofs.decimal_toString, Proofs.decimal_leading_zeros⟩
+
+/-! Non-vacuity of the hypotheses (`hw`: lexemes that denote units; a state with the comparison as lookahead is what
+`parseDateField` leaves), and whole files through `parseConfig`: `000060 s` is 60 seconds, `71582788 minutes` is
+4294967280 seconds, `71582789 minutes`, `137 years`, 2^64 + 60 seconds, 2^64 + 1 hours, 2 * 2^64 + 3600 seconds and
+2^64 + 2^32 - 1 seconds are rejected on their line. -/
+example : Spec.unitOf "seconds" = some 1 ∧ Spec.unitOf "mi" = some 60 ∧ Spec.unitOf "y" = some 31536000 ∧ Spec.unitOf "m" = none := by
+  decide +kernel
+example : (match parseConfig [] [] (fun _ => true) "maildir \"q\" { match date > 000060 s break }".toUTF8.toList with
+    | .ok [⟨_, .block _ (.mtch _ (.leaf (.date _ .header .gt 60)) _)⟩] => true | _ => false) = true := by decide +kernel
+example : (match parseConfig [] [] (fun _ => true) "maildir \"q\" { match date modified < 71582788 minutes break }".toUTF8.toList with
+    | .ok [⟨_, .block _ (.mtch _ (.leaf (.date _ .modified .lt 4294967280)) _)⟩] => true | _ => false) = true := by decide +kernel
+example :
+    Proofs.Conf.isErrorAt 1 (parseConfig [] [] (fun _ => true) "maildir \"q\" { match date > 71582789 minutes break }".toUTF8.toList) = true ∧
+    Proofs.Conf.isErrorAt 1 (parseConfig [] [] (fun _ => true) "maildir \"q\" { match date > 137 years break }".toUTF8.toList) = true ∧
+    Proofs.Conf.isErrorAt 2 (parseConfig [] [] (fun _ => true) "maildir \"q\" {\n match date > 18446744073709551676 seconds break }".toUTF8.toList) = true ∧
+    Proofs.Conf.isErrorAt 1 (parseConfig [] [] (fun _ => true) "maildir \"q\" { match date > 18446744073709551617 hours break }".toUTF8.toList) = true ∧
+    Proofs.Conf.isErrorAt 1 (parseConfig [] [] (fun _ => true) "maildir \"q\" { match date > 36893488147419106832 seconds break }".toUTF8.toList) = true ∧
+    Proofs.Conf.isErrorAt 1 (parseConfig [] [] (fun _ => true) "maildir \"q\" { match date > 18446744078004518911 seconds break }".toUTF8.toList) = true := by
+  decide +kernel
+
 /-! Non-vacuity: 2026-01-15 12:00:00 UTC, and the zone `-0330`. -/
 example : Model.timegm { year := 2026, mon := 0, mday := 15, hour := 12, min := 0, sec := 0 } = 1768478400 := by
   decide
@@ -64,12 +140,12 @@ example : Model.tzoff [45, 48, 51, 51, 48] = some (-12600) := by decide
 
 /-- Which instant a date condition compares: `date [header]` the `Date` header (`getHeader1` +
 `timeParse`; absent header = no match, unparsable = error), `date access` / `modified` / `created`
-the entry of the `stat` oracle for that very field (`st_atim` / `st_mtim` / `st_ctim` in
-`expr_eval_date`; failure of `stat` or `time_format` = error) ... -/
+the field `st_atim` / `st_mtim` / `st_ctim` of what the `stat` oracle returns for the message's path
+(`Proofs.statInstant`; failure of `stat` or of `time_format` = error) ... -/
 theorem C15_fields_source (env : Env) (m : Msg) :
-    Proofs.dateInstant env m .access = (env.fileTime .access).map some ∧
-    Proofs.dateInstant env m .modified = (env.fileTime .modified).map some ∧
-    Proofs.dateInstant env m .created = (env.fileTime .created).map some ∧
+    Proofs.dateInstant env m .access = Proofs.statInstant env (·.atime) ∧
+    Proofs.dateInstant env m .modified = Proofs.statInstant env (·.mtime) ∧
+    Proofs.dateInstant env m .created = Proofs.statInstant env (·.ctime) ∧
     Proofs.dateInstant env m .header =
       (match getHeader1 m (ofString "Date") with
        | none => some none
@@ -78,6 +154,41 @@ theorem C15_fields_source (env : Env) (m : Msg) :
          | none => none
          | some t => some (some (t, d))) :=
   ⟨rfl, rfl, rfl, rfl⟩
+
+/-- **The file fields are bound to the right time stamp.**  `env.fileTime : path → Option FileTimes` is `stat(2)`
+(`none` = it failed, otherwise the three `tv_sec` values of `st_atim`, `st_mtim`, `st_ctim`), `env.timeFormat` is
+`time_format` (only the text shown by `-d`), `env.path` the path of the message (`message_get_path`; a part of a
+message has the path of the message).  For every environment, message, state, comparison and age, and for
+`field` = `access`, `modified` or `created`:
+
+* a failing `stat` of the message's path is an ERROR for that message (not "no match");
+* otherwise the instant compared is `Proofs.fieldTime sb field`: `sb.mtime` for `modified`, `sb.ctime` for `created`,
+  `sb.atime` for `access` - no other entry of `sb`, no other path, not the `Date` header (the right-hand side does not
+  mention the message `m`);
+* `time_format` failing is an error; otherwise the condition matches iff `now - instant > age` (`>`) resp.
+  `now - instant < age` (`<`), strictly (`Proofs.AgeHolds`), and the match is recorded through `expr_regexec`. -/
+theorem C15_file_fields (env : Env) (root : Msg) (lno : Nat) (field : DateField) (cmp : DateCmp) (age : Nat)
+    (part : Nat) (m : Msg) (st : St) (hf : field ≠ .header) :
+    (Proofs.fieldTime ⟨1, 2, 3⟩ .access = 1 ∧ Proofs.fieldTime ⟨1, 2, 3⟩ .modified = 2 ∧ Proofs.fieldTime ⟨1, 2, 3⟩ .created = 3) ∧
+    (∀ sb : FileTimes, Proofs.fieldTime sb .access = sb.atime ∧ Proofs.fieldTime sb .modified = sb.mtime ∧
+      Proofs.fieldTime sb .created = sb.ctime) ∧
+    eval env root (.date lno field cmp age) part m st =
+      (match env.fileTime env.path with
+       | none => (.error, st)
+       | some sb =>
+         match env.timeFormat (Proofs.fieldTime sb field) with
+         | none => (.error, st)
+         | some text =>
+           if Proofs.AgeHolds cmp age env.now (Proofs.fieldTime sb field) then
+             exprRegexec env .date lno part { src := [46, 42] } (ofString "Date") text st
+           else (.nomatch, st)) :=
+  ⟨⟨rfl, rfl, rfl⟩, fun _ => ⟨rfl, rfl, rfl⟩, Proofs.date_file_fields env root lno field cmp age part m st hf⟩
+
+/-- A failing `stat` is an error for that message, whatever else the environment says. -/
+theorem C15_file_stat_fails (env : Env) (root : Msg) (lno : Nat) (field : DateField) (cmp : DateCmp) (age : Nat)
+    (part : Nat) (m : Msg) (st : St) (hf : field ≠ .header) (hs : env.fileTime env.path = none) :
+    eval env root (.date lno field cmp age) part m st = (.error, st) := by
+  rw [Proofs.date_file_fields env root lno field cmp age part m st hf, hs]
 
 /-- ... and the whole `date` case of the evaluator, for every field, comparison, age, `now` and state:
 error if the instant cannot be had, no match without one, otherwise a match (recorded through
@@ -115,5 +226,12 @@ example : (eval Proofs.exDateEnv { headers := [], body := [] } (.date 1 .access 
 example : (eval Proofs.exDateEnv { headers := [], body := [] } (.date 1 .access .lt 701) 0 { headers := [], body := [] }
     { ml := [], flags := MFlags.empty }).1 = .match := by simp only [eval]; decide +kernel
 example : Proofs.AgeHolds .lt 0 1000 2000 := by decide
+
+/-- Non-vacuity of `C15_file_fields` / `C15_file_stat_fails`: `Proofs.exDateEnv` answers `stat` for its own path
+`/m/new/1` (three different time stamps) and for no other path: with another path the same conditions are errors. -/
+example : Proofs.exDateEnv.fileTime Proofs.exDateEnv.path = some ⟨300, 100, 200⟩ ∧ DateField.modified ≠ DateField.header ∧
+    ({ Proofs.exDateEnv with path := [47, 120] } : Env).fileTime [47, 120] = none := by decide
+example : (eval { Proofs.exDateEnv with path := [47, 120] } { headers := [], body := [] } (.date 1 .modified .gt 850) 0
+    { headers := [], body := [] } { ml := [], flags := MFlags.empty }).1 = .error := by simp only [eval]; decide +kernel
 
 end Mdsort.Props
